@@ -205,6 +205,18 @@ def evaluate_rt(rep, so, rc, out, err, params, info):
                 pc = code_at(syms, int(d["pc"], 16)) if d.get("pc") else None
                 res.append(("fault outside the library statics during the threaded run: %s in `%s`" % (l, pc[2] if pc else "?"),
                             dict(params, kind="runtime", fault=l), {"kind": "fault"}, False))
+    # bindings the harness made late (an unbound dispatch slot written under protection): a harness defect that
+    # is counted, not a property violation - unless the writer is not that entry's own dispatcher
+    for l in out.split("\n"):
+        if l.startswith("LATEBIND "):
+            t = l.split()
+            wr = code_at(syms, int(t[2].split("=")[1], 16))
+            f.setdefault("late_binds", []).append({"entry": t[1], "writer": wr[2] if wr else "?", "where": " ".join(t[3:])})
+            if not (wr and t[1].lstrip("_") in wr[2]):
+                res.append(("dispatch slot of `%s` written by `%s`, which is not its dispatcher (%s)" % (t[1], wr[2] if wr else "?", " ".join(t[3:])),
+                            dict(params, kind=params.get("kind", "runtime"), event=l), {"kind": "foreign_write_to_dispatch_slot"}, False))
+        elif l.startswith("UNBOUND "):
+            f.setdefault("unbound_after_binding_pass", []).append(l[8:])
     mis = [l for l in out.split("\n") if l.startswith("PTR") and int(l.split()[2], 16) % 8]
     if mis:
         res.append(("dispatch pointers not 8-byte aligned in the linked shared object: %s" % [l.split()[1] for l in mis][:5],
@@ -212,7 +224,7 @@ def evaluate_rt(rep, so, rc, out, err, params, info):
     nosym = [l for l in out.split("\n") if l.startswith("NOSYM")]
     if nosym:
         res.append(("dispatch symbols not found in the shared object: %s" % nosym[:4], dict(params, kind="harness"), {"kind": "harness"}, True))
-    if not any(r[2]["kind"] in ("write_to_static", "fault") for r in res):
+    if not any(r[2]["kind"] in ("write_to_static", "fault", "foreign_write_to_dispatch_slot") for r in res):
         if params.get("kind") == "sweep":
             pass
         elif "A" not in f:
@@ -242,6 +254,7 @@ def run(tier, replay=None):
                               "bss_symbols": len(info.get("bss", [])), "data_symbols": info.get("n_data_syms"),
                               "data_symbols_by_object_top": sorted(info.get("data_syms_by_obj", {}).items(), key=lambda kv: -kv[1])[:12],
                               "c_objects_writable_symbols": len(info.get("c_statics_nonconst", [])),
+                              "const_relro_symbols_not_counted_as_writable": info.get("relro_const_symbols"),
                               "instructions_taking_the_address_of_writable_data": info.get("addr_taken"),
                               "dispatch_pointers": len(entries), "translate_error": info.get("error"),
                               "dispatch_pointer_section_alignment_log2": sorted({s.get("align") for s in info.get("dispatch_ptrs", [])})}
@@ -275,7 +288,8 @@ def run(tier, replay=None):
     for r_ in range(params["rounds"]):
         rep.case(("B", r_, params["seed"]), True)
     rep.cov["traces_validated_against_impl"] = 9 * params["nth"] * params["nops"] + params["rounds"] * 16 * nops_kinds
-    rep.notes["runtime"] = {"phase_A_per_family": f.get("A_families"), "phase_B": f.get("B"), "entries_given": len(entries)}
+    rep.notes["runtime"] = {"phase_A_per_family": f.get("A_families"), "phase_B": f.get("B"), "entries_given": len(entries),
+                            "bindings_made_late_by_the_harness": f.get("late_binds", []), "unbound_after_binding_pass": f.get("unbound_after_binding_pass", [])}
     if f.get("A_families") is not None and len(f["A_families"]) < 9 and not found:
         found.append(("run-time half covered only %d of 9 implementation families" % len(f["A_families"]), dict(params, kind="runtime"), {"kind": "harness"}, True))
     if f.get("A"):
@@ -313,9 +327,10 @@ def run(tier, replay=None):
             sp = {"kind": "sweep", "opkinds": kinds, "presets": presets, "seed": params["seed"],
                   "how": "targeted sweep: alignments 0..63 x 28 length classes x all variants, single thread, library data write-protected"}
             sfound, _ = evaluate_rt(rep, so, src, sout, serr, sp, info)
-            sreal = [x for x in sfound if x[2]["kind"] in ("write_to_static", "fault")]
+            sreal = [x for x in sfound if x[2]["kind"] in ("write_to_static", "fault", "foreign_write_to_dispatch_slot")]
             real = real + sreal
             rep.notes["targeted_search"]["completed_without_fault"] = [l for l in sout.split("\n") if l.startswith("S ")]
+            rep.notes["targeted_search"]["bindings_made_late_by_the_harness"] = [l for l in sout.split("\n") if l.startswith("LATEBIND ")]
             for k_ in range(len([l for l in sout.split("\n") if l.startswith("S ")]) + 1):
                 rep.case(("sweep", k_, tuple(kinds), tuple(presets)), True)
             for what, rp, sig, no_input in sreal[:2]:
